@@ -39,7 +39,11 @@ def spectrum():
     for ax in [[0],[1],[2],[0,2],[2,1]]: add([1,2,3], ax, "quick")
     for ax in [[1],[2],[1,2],[2,1]]: add([2,3,1], ax, "quick")
     add([3,1], [0], "quick"); add([3,1], [1], "quick"); add([2,2,1,1], [1], "quick"); add([2,2,1,1], [3,1], "thorough")
-    for ax in [[1,3],[3,1],[0,1,2],[2,0,1],[3,2,1],[0,3,1],[1,2,3],[3,0,2],[1,3,2],[0,2,1],[2,3,1]]: add([2,2,2,2], ax, "quick" if ax in ([0,1,2],[3,2,1],[2,0,1],[1,3,2],[0,3,1],[1,3]) else "thorough")
+    for ax in [[1,3],[3,1],[0,1,2],[2,0,1],[3,2,1],[0,3,1],[1,2,3],[3,0,2],[1,3,2],[0,2,1],[2,3,1]]: add([2,2,2,2], ax, "thorough")
+    # three named axes in every order, on a cheap shape with unequal lengths (the renumbering case)
+    for ax in itertools.permutations([1,2,3], 3): add([2,1,3,1], list(ax), "quick")
+    for ax in itertools.permutations([0,1,3], 3): add([2,1,3,1], list(ax), "quick")
+    for ax in [[0,2],[2,0],[0,3,2],[2,3,0],[3,0,2]]: add([2,1,3,1], ax, "quick")
     for k in (1,2):
         for ax in itertools.permutations(range(3), k): add([3,2,4], list(ax), "thorough")
     for ax in [[0,4],[4,2,0],[3,1]]: add([2,1,2,2,2], ax, "thorough")
@@ -84,6 +88,21 @@ def decoders():
             t += f"// @harness props=C15 tier=quick group=f64 bounds=dtype={'<' if e=='Little' else '>'}{ty.lower()},two-values-of-symbolic-bytes(all-bit-patterns) timeout=900\n"
             t += f"decoder_h!(decoder_{en}{ty.lower()}, {e}, {ty});\n\n"
     fill(p, "DECODER_CASES", t)
+
+def stat_grid():
+    p = os.path.join(HERE, "core/spectrum.rs")
+    t = ""
+    # (shape, tier, role): role 'ok' must pass; 'degenerate' = recorded known findings (D7)
+    cases = [([4],"quick","ok"),([5],"quick","ok"),([3],"quick","degenerate"),([2],"quick","degenerate"),([1],"quick","degenerate"),([0],"quick","degenerate"),
+             ([2,2],"quick","ok"),([2,3],"quick","ok"),([3,3],"quick","ok"),([4,2],"thorough","ok"),([1,3],"quick","degenerate"),([3,1],"quick","degenerate"),([1,1],"thorough","degenerate"),([0,2],"quick","degenerate"),
+             ([2,2,2],"quick","ok"),([1,2,2],"quick","ok"),([2,1,3],"thorough","ok"),([1,1,1],"thorough","ok"),
+             ([2,2,2,2],"thorough","ok"),([1,2,1,2],"quick","ok"),([1,1,1,1],"thorough","ok"),([2,1,1,1,1],"thorough","ok")]
+    for sh, tier, role in cases:
+        n = math.prod(sh); r = len(sh)
+        pre = "stat_grid" if role == "ok" else "stat_degenerate"
+        t += f"// @harness props=C17 tier={tier} group=f64 role={role} bounds=shape={nos(sh)},cells=0..3,all-14-statistics timeout=1800\n"
+        t += f"stat_grid_h!({pre}_{sid(sh)}, {r}, {n}, {lit(sh)}, {max(n, 17) + 3});\n\n"
+    fill(p, "STAT_GRID_CASES", t)
 
 def site_reader():
     p = os.path.join(HERE, "core/site_reader.rs")
@@ -130,4 +149,5 @@ def site_reader():
 if __name__ == "__main__":
     site_reader()
     project_cases()
+    stat_grid()
     decoders()
